@@ -178,7 +178,7 @@ def _tokenrefs(repo, rep):
     rep.count("functions_interpreted", 3)
 
 
-def _source_identity(repo, rep):
+def _source_identity(repo, rep, rule="R12.2"):
     """R12.2: def-use of the source text across parse / _compile / program"""
     comp = repo.func(BT + "_compile")
     calls = [n for n in ast.walk(comp.node) if isinstance(n, ast.Call)
@@ -210,7 +210,7 @@ def _source_identity(repo, rep):
         "source" in src(source_arg)
     if rewriters:
         m, n = rewriters[0]
-        rep.check(uses_program_source, "R12.2", comp.qualname,
+        rep.check(uses_program_source, rule, comp.qualname,
                   "%s rewrites its copy of the source (line %d: %s), so the "
                   "compiler must re-slice from the text the program "
                   "tokenised, not from the caller's string" % (
@@ -218,7 +218,7 @@ def _source_identity(repo, rep):
                   construct="compiler-source", where=L.where(comp, c.lineno),
                   detail="Compiler(source=%s)" % src(source_arg))
     else:
-        rep.ok("R12.2", comp.qualname, "no parse() implementation rewrites "
+        rep.ok(rule, comp.qualname, "no parse() implementation rewrites "
                "the source: caller's string == tokenised string")
     if uses_program_source:
         ep = repo.func("chameleon.program.ElementProgram.__init__")
@@ -238,7 +238,7 @@ def _source_identity(repo, rep):
             stored[1] == tok[1] == "source" and not any(
                 min(stored[0], tok[0]) <= r <= max(stored[0], tok[0])
                 for r in reassigned)
-        rep.check(ok, "R12.2", ep.qualname, "the program records exactly the "
+        rep.check(ok, rule, ep.qualname, "the program records exactly the "
                   "string it hands to the tokenizer", construct="program-source",
                   where=L.where(ep), detail="stored=%s tokenised=%s" % (
                       stored, tok))
@@ -246,11 +246,11 @@ def _source_identity(repo, rep):
     init = repo.func(CC + "__init__")
     text = L.text(init.node)
     rep.check("Token(source[pos:pos + length], pos, source)" in text and
-              "in generator.tokens" in text, "R12.2",
+              "in generator.tokens" in text, rule,
               init.qualname, "the token table is built by slicing "
               "source[offset:offset+length] for every recorded reference",
               construct="token-table", where=L.where(init))
-    rep.check("(token,) + token.location" in text, "R12.2", init.qualname,
+    rep.check("(token,) + token.location" in text, rule, init.qualname,
               "each entry is (text, line, column) of that slice",
               construct="token-entry", where=L.where(init))
 
